@@ -208,7 +208,7 @@ def neardup_diag(g, n, k):
         out.append(cur)
     Ps = [[[dv[a] if a == b else 0.0 for b in range(n)] for a in range(n)] for dv in out]
     d = [base[a] ** 0.5 for a in range(n)]
-    return Ps, d
+    return Ps, d, ib
 
 
 def rnd_scales(g, n):
@@ -260,7 +260,7 @@ def weights_stage(ctx, binary, stats, hist, only=None):
             lines.append("utwd %d %d %d %d %s %s %s" % (lin, circ, noise, 1 if quat else 0, hexd(a), hexd(b), hexd(k)))
     register("weights", [(l, {"case": list(c[:5])}) for l, c in zip(lines, cases)])
     hout, logs = run_h(binary, lines)
-    dout = vlib.run_driver(lines)
+    dout = vlib.run_driver([("utwl" + l[4:]) if l.startswith("utwd ") else l for l in lines])   # utwl: BFL.UTWeight.ofLayout
     prop_bad, corr_bad = [], []
     for (op, nn, a, b, k, _), line, h, d in zip(cases, lines, hout, dout):
         hist["weights:" + op] = hist.get("weights:" + op, 0) + 1
@@ -346,20 +346,33 @@ def check_points_linear(X, means, covs, c, n, k, stats, what, dc=0.0):
         Bs.append(B)
         mscale = max([abs(float(v)) for v in m] + [0.0])
         bscale = maxabs(B)
-        e0 = max([abs(float(v)) for v in centre] + [0.0])
-        t0 = 4 * EPS * mscale + 1e-300
-        stats["sp_first"] = max(stats.get("sp_first", 0.0), e0 / t0)
-        if e0 > t0:
-            probs.append(("first-not-mean", "%s component %d: first sigma point differs from the mean by %.3g" % (what, i, e0)))
-        ea = maxabs(asym)
-        ta = 8 * EPS * (mscale + bscale) + 1e-300
-        stats["sp_symmetry"] = max(stats.get("sp_symmetry", 0.0), ea / ta)
-        if ea > ta:
-            probs.append(("points-asymmetric", "%s component %d: columns 1+l and 1+n+l are not symmetric about the mean (%.3g)" % (what, i, ea)))
+        # row by row (a mean whose rows differ by many orders of magnitude: an error in a small row must not hide
+        # behind the largest one)
+        rows_ = len(X)
+        e0 = t0 = ea = ta = 0.0
+        w0 = wa = 0.0
+        for r_ in range(rows_):
+            mr_ = abs(float(m[r_]))
+            br_ = max([abs(float(v)) for v in B[r_]] + [0.0])
+            e0r, t0r = abs(float(centre[r_])), 4 * EPS * mr_ + 1e-300
+            ear, tar = max([abs(float(v)) for v in asym[r_]] + [0.0]), 8 * EPS * (mr_ + br_) + 1e-300
+            if e0r / t0r >= w0:
+                w0, e0, t0 = e0r / t0r, e0r, t0r
+            if ear / tar >= wa:
+                wa, ea, ta = ear / tar, ear, tar
+        stats["sp_first"] = max(stats.get("sp_first", 0.0), w0)
+        if w0 > 1.0:
+            probs.append(("first-not-mean", "%s component %d: first sigma point differs from the mean by %.3g (tolerance %.3g, row by row)" % (what, i, e0, t0)))
+        stats["sp_symmetry"] = max(stats.get("sp_symmetry", 0.0), wa)
+        if wa > 1.0:
+            probs.append(("points-asymmetric", "%s component %d: columns 1+l and 1+n+l are not symmetric about the mean (%.3g, tolerance %.3g, row by row)" % (what, i, ea, ta)))
         BBt = vlib.mmul(B, vlib.mT(B))
         P = covs[i]
         pn = max(n * maxabs(P), 1e-300)
         cf = float(c)
+        # the scale of the factor: what was recovered from the columns or, where the mean is so large that the
+        # perturbation is (partly) lost in fl(m + B), what the contract says it is
+        bscale = max(bscale, math.sqrt(abs(cf) * maxabs(P)))
         res = max([abs(float(BBt[a][b] - c * P[a][b])) for a in range(n) for b in range(n)] + [0.0])
         # the columns themselves are rounded (X = fl(m + B)): the recovered factor carries eps (|m| + |B|) per entry
         tol = C_SQRT * n * EPS * abs(cf) * pn + 16 * n * EPS * bscale * (mscale + bscale) + dc * pn + 1e-300
@@ -372,7 +385,7 @@ def check_points_linear(X, means, covs, c, n, k, stats, what, dc=0.0):
             # relative to the largest variance.
             sd = [math.sqrt(float(P[a][a])) for a in range(n)]
             mr = [abs(float(m[a])) for a in range(n)]
-            br = [max([abs(float(v)) for v in B[a]] + [0.0]) for a in range(n)]
+            br = [max([abs(float(v)) for v in B[a]] + [math.sqrt(abs(cf)) * sd[a]]) for a in range(n)]
             worst = 0.0
             for a in range(n):
                 for b in range(n):
@@ -389,9 +402,11 @@ def check_points_linear(X, means, covs, c, n, k, stats, what, dc=0.0):
 def sp_case(g, tier):
     r = g.r
     lin = r.randint(1, 5)
-    k = r.choice([1, 2, 3, 4])
-    naug = r.choice([0, 0, 1, 1, 2])
+    k = r.choice([1, 2, 3, 4, 2, 3, 5, 6, 7])
+    naug = r.choice([0, 0, 1, 1, 2, 2, 3, 4])
     nzs = [r.randint(1, 3) for _ in range(naug)]
+    if k >= 5 and naug >= 3:
+        lin = min(lin, 3)
     n0 = lin
     alpha, beta, kappa = rnd_params(g, n0 + sum(nzs))
     n = n0 + sum(nzs)
@@ -402,10 +417,16 @@ def sp_case(g, tier):
     if n0 >= 2 and r.random() < 0.12:
         k = max(k, r.choice([2, 3]))
         style, skind = "neardup-diag", "neardup"
-        Ps, d = neardup_diag(g, n0, k)
+        Ps, d, _ib = neardup_diag(g, n0, k)
     means = [[v * d[i] for i, v in enumerate(g.vec(n0))] for _ in range(k)]
     if style == "neardup-diag" and r.random() < 0.5:
         means = [list(means[0]) for _ in range(k)]
+    elif r.random() < 0.10:
+        # means far from the origin relative to the spread (|m| / sigma = 2^18 .. 2^30), in some or all rows
+        skind = skind + "+far-mean"
+        rows = [a for a in range(n0) if r.random() < 0.6] or [r.randrange(n0)]
+        e = r.randint(18, 30)
+        means = [[(v + (r.choice([-1.0, 1.0]) * 2.0 ** e * r.uniform(1.0, 2.0) * d[a] if a in rows else 0.0)) for a, v in enumerate(m_)] for m_ in means]
     Qs = []
     for z in nzs:
         _, dz = rnd_scales(g, z)
@@ -452,6 +473,52 @@ def points_stage(ctx, binary, stats, hist, only=None):
             cur_n += z
         meta["aug_means"], meta["aug_covs"], meta["n"] = means, covs, cur_n
     aout = vlib.run_driver(aug_lines)
+    # storage-level model (BFL.augmentStore: in-place relocation of the blocks, last component first) on the same
+    # inputs, the same loop in ascending order (executed counterexample), and the history model (AnyGM.augmentAll)
+    st_lines, st_meta, hist_lines, hist_idx = [], [], [], []
+    for ci, (line, meta) in enumerate(cases):
+        n0, k = meta["lin"], meta["k"]
+        covs = [fmat(P) for P in meta["Ps"]]
+        cur_n = n0
+        for qi, Q in enumerate(meta["Qs"]):
+            z = len(Q)
+            toks = [str(cur_n), str(z), str(k)] + [fstr(covs[i][a][b]) for i in range(k) for b in range(cur_n) for a in range(cur_n)] + cm_tokens(Q, fstr)
+            covs = [blockdiag(P, Q) for P in covs]
+            cur_n += z
+            st_lines.append("augst " + " ".join(toks))
+            st_meta.append((ci, "desc", covs, cur_n, k, qi == len(meta["Qs"]) - 1))
+            if k >= 3:
+                st_lines.append("augsa " + " ".join(toks))
+                st_meta.append((ci, "asc", covs, cur_n, k, False))
+        if meta["Qs"]:
+            toks = ["augh", str(n0), str(k), str(len(meta["Qs"]))] + [str(len(Q)) for Q in meta["Qs"]]
+            toks += [hexd(meta["means"][i][j]) for i in range(k) for j in range(n0)]
+            toks += [hexd(meta["Ps"][i][a][b]) for i in range(k) for b in range(n0) for a in range(n0)]
+            for Q in meta["Qs"]:
+                toks += cm_tokens(Q)
+            hist_lines.append(" ".join(toks))
+            hist_idx.append(ci)
+    st_out = vlib.run_driver(st_lines)
+    hist_out = dict(zip(hist_idx, vlib.run_driver(hist_lines)))
+    store_final = {}
+    store_bad = []
+    for (ci, kind, want, nn, k, last), line_, o_ in zip(st_meta, st_lines, st_out):
+        ok_ = o_.startswith("ok")
+        got = None
+        if ok_:
+            t_ = o_.split()[1:]
+            ok_ = len(t_) == nn * nn * k
+            if ok_:
+                got = [vlib.mat_from_cm(t_[i * nn * nn:(i + 1) * nn * nn], nn, nn, frac) for i in range(k)]
+        if kind == "desc":
+            hist["augmentStore:steps"] = hist.get("augmentStore:steps", 0) + 1
+            if got != want:
+                store_bad.append(("augment-store-model", "BFL.augmentStore (in-place relocation, last component first) does not yield blockdiag(P_i, Q) (%d components)" % k, cases[ci][0], o_[:60]))
+            if last:
+                store_final[ci] = got
+        else:
+            key_ = "augmentStoreAsc(executed counterexample, components>=3):" + ("differs from blockdiag(P_i,Q)" if got != want else "agrees")
+            hist[key_] = hist.get(key_, 0) + 1
     # model output of the last augmentation of each case
     last_model = {}
     pos = 0
@@ -498,9 +565,24 @@ def points_stage(ctx, binary, stats, hist, only=None):
             mcovs = [vlib.mat_from_cm(mt[nn * k + i * nn * nn: nn * k + (i + 1) * nn * nn], nn, nn, frac) for i in range(k)]
             if mmeans != meta["aug_means"] or mcovs != meta["aug_covs"]:
                 corr_bad.append(("augment-model", "Lean augmentWithNoise differs from [m;0], blockdiag(P,Q)", line, h))
+            if store_final.get(ci) is not None and store_final[ci] != ccovs:
+                corr_bad.append(("augment-store-vs-impl", "storage after augmentWithNoise differs from the storage-level model BFL.augmentStore", line, h))
+            ho_ = hist_out.get(ci, "")
+            okh = ho_.startswith("ok")
+            if okh:
+                th_ = ho_.split()[1:]
+                okh = int(th_[0]) == n and len(th_) == 1 + n * k + n * n * k
+                if okh:
+                    hm_ = [[frac(th_[1 + i * n + r_]) for r_ in range(n)] for i in range(k)]
+                    hc_ = [vlib.mat_from_cm(th_[1 + n * k + i * n * n:1 + n * k + (i + 1) * n * n], n, n, frac) for i in range(k)]
+                    okh = hm_ == cmeans and hc_ == ccovs
+            hist["augmentAll(history model):cases"] = hist.get("augmentAll(history model):cases", 0) + 1
+            if not okh:
+                corr_bad.append(("augment-history-vs-impl", "mixture after %d augmentWithNoise calls differs from the history model AnyGM.augmentAll" % len(meta["Qs"]), line, h))
         probs, _ = check_points_linear(X, cmeans, ccovs, Fraction(meta["c"]), n, k, stats, key)
         for key2, what in probs:
             prop_bad.append((key2, what, line, h))
+    corr_bad += store_bad
     # the guard of augmentWithNoise (non-square matrix refused): outside the property's quantifier, counted only
     if not ctx.replay:
         gl = []
@@ -556,21 +638,39 @@ def points_stage(ctx, binary, stats, hist, only=None):
 MODES = ["gen", "gen", "sm", "asm", "mm", "amm"]
 
 
-def ut_case(g, tier, idx):
+BIG_N = [12, 15, 16, 24, 31, 32, 33]
+
+
+def ut_case(g, tier, idx, force=None):
+    """force: dict overriding mode / nx / nzs / ny / k / big (enumerated shapes)"""
     r = g.r
-    mode = r.choice(MODES)
+    force = force or {}
+    mode = force.get("mode") or r.choice(MODES)
     big = 5 if tier == "quick" else 6
     nx = r.randint(1, big)
-    k = r.choice([1, 1, 2, 3, 4])
+    k = r.choice([1, 1, 2, 3, 4, 2, 5, 6])
     if mode in ("asm", "amm"):
-        nz = 0
+        nzs = []
     else:
-        nz = r.choice([0, 0, 1, 2, 3])
+        nzs = r.choice([[], [], [1], [2], [3], [1, 1], [2, 1], [1, 2, 1], [1, 3], [2, 2, 1, 1]])
     ny = nx if mode == "asm" else r.randint(1, big)
+    large = False
+    if force.get("big") or (not force and r.random() < 0.012):
+        # long inputs: 2n+1 = 25 .. 67 sigma points per component (chunk boundaries 16, 32, 64 and +-1)
+        large = True
+        nx = (force["big"] if (force.get("big") and force["big"] is not True) else r.choice(BIG_N)) - sum(nzs)
+        k = r.choice([1, 2])
+        ny = nx if mode == "asm" else r.randint(1, 3)
+    nx, ny, k = force.get("nx", nx), force.get("ny", ny), force.get("k", k)
+    if "nzs" in force:
+        nzs = force["nzs"] if mode not in ("asm", "amm") else []
+    if mode == "asm":
+        ny = nx
+    nz = sum(nzs)
     n = nx + nz
     alpha, beta, kappa = rnd_params(g, n)
     valid = True
-    if mode in ("gen", "mm", "amm") and r.random() < 0.15:
+    if mode in ("gen", "mm", "amm") and r.random() < 0.15 and not force:
         valid = False
     fail_data = (not valid) and r.random() < 0.5
     astyle = r.choice(["general", "general", "general", "identity", "rank1", "zero", "dyadic", "triangular"])
@@ -591,32 +691,75 @@ def ut_case(g, tier, idx):
     pstyle = r.choice(PSD_STYLES)
     skind, d = rnd_scales(g, nx)
     Ps = [scale_cov(rnd_psd(g, nx, pstyle), d) for _ in range(k)]
-    if nx >= 2 and r.random() < 0.08:
+    ib = None
+    special = r.random() if (nx >= 2 and not large) else 1.0
+    if special < 0.08:
         k = max(k, r.choice([2, 3]))
         pstyle, skind = "neardup-diag", "neardup"
-        Ps, d = neardup_diag(g, nx, k)
+        Ps, d, ib = neardup_diag(g, nx, k)
     means = [[v * d[i] for i, v in enumerate(g.vec(nx))] for _ in range(k)]
+    if special < 0.03:
+        # ... and the same mean: components that differ ONLY in the small block of the covariance
+        means = [list(means[0]) for _ in range(k)]
+        skind = "neardup+same-mean"
+    elif special < 0.14:
+        # near-duplicate means: one dominant row (2^44 .. 2^50 times the others) shared by all components, the
+        # other rows different: equal under a comparison relative to the norm of the whole vector (isApprox);
+        # the covariances are equal, isApprox-equal (neardup-diag) or unrelated
+        if ib is None:
+            ib = r.randrange(nx)
+            if r.random() < 0.6:
+                k = max(k, 2)
+                Ps = [Ps[0]] * k
+                means = [[v * d[i] for i, v in enumerate(g.vec(nx))] for _ in range(k)]
+        top = 2.0 ** r.randint(44, 50) * r.uniform(1.0, 2.0) * d[ib]
+        for m_ in means:
+            m_[ib] = top
+        skind = skind + "+neardup-mean"
+        # the dominant row is read by the last output row only (the others are sensitive at the small scale)
+        for i in range(ny - 1 if ny > 1 else ny):
+            A[i][ib] = 0.0
+    elif special < 0.26:
+        # means (or the offset b) far from the origin relative to the spread: |m| / sigma = 2^18 .. 2^30
+        e = r.randint(18, 30)
+        if r.random() < 0.7:
+            rows = [a for a in range(nx) if r.random() < 0.6] or [r.randrange(nx)]
+            means = [[(v + (r.choice([-1.0, 1.0]) * 2.0 ** e * r.uniform(1.0, 2.0) * d[a] if a in rows else 0.0)) for a, v in enumerate(m_)] for m_ in means]
+            skind = skind + "+far-mean"
+        else:
+            bv = [r.choice([-1.0, 1.0]) * 2.0 ** e * r.uniform(1.0, 2.0) for _ in range(ny)]
+            skind = skind + "+far-offset"
     Qin = []
     if nz:
-        _, dz = rnd_scales(g, nz)
-        Qin = scale_cov(rnd_psd(g, nz, r.choice(PSD_STYLES)), dz)
+        Qin = [[0.0] * nz for _ in range(nz)]
+        o_ = 0
+        for z in nzs:
+            _, dz = rnd_scales(g, z)
+            Qb = scale_cov(rnd_psd(g, z, r.choice(PSD_STYLES)), dz)
+            for a in range(z):
+                for b_ in range(z):
+                    Qin[o_ + a][o_ + b_] = Qb[a][b_]
+            o_ += z
     Nadd = None
     if mode in ("asm", "amm"):
         _, dn = rnd_scales(g, ny)
         Nadd = scale_cov(rnd_psd(g, ny, r.choice(["full", "dyadic", "singular", "zero"])), dn)
     if skind in ("tiny", "small", "large", "huge"):
         bv = [v * d[0] for v in bv]
-    if skind == "neardup":
+    if skind.startswith("neardup"):
         # rescale every input dimension to order one, so that the small variances are visible in the output
         A = [[A[i][j] / (d[j] if j < nx else 1.0) for j in range(n)] for i in range(ny)]
-    meta = {"mode": mode, "nx": nx, "nz": nz, "ny": ny, "k": k, "alpha": alpha, "beta": beta, "kappa": kappa, "valid": valid, "fail_data": fail_data,
-            "A": A, "b": bv, "means": means, "Ps": Ps, "Qin": Qin, "Nadd": Nadd, "astyle": astyle, "pstyle": pstyle, "scale": skind}
+    meta = {"mode": mode, "nx": nx, "nz": nz, "nzs": nzs, "ny": ny, "k": k, "alpha": alpha, "beta": beta, "kappa": kappa, "valid": valid, "fail_data": fail_data,
+            "A": A, "b": bv, "means": means, "Ps": Ps, "Qin": Qin, "Nadd": Nadd, "astyle": astyle, "pstyle": pstyle, "scale": skind, "large": large}
     return ut_line(meta), meta
 
 
 def ut_line(meta):
     nx, nz, ny, k = meta["nx"], meta["nz"], meta["ny"], meta["k"]
-    toks = ["ut", meta["mode"], str(nx), str(nz), str(ny), str(k), hexd(meta["alpha"]), hexd(meta["beta"]), hexd(meta["kappa"]), vcode(meta)]
+    nzs = meta.get("nzs") or ([nz] if nz else [])
+    # several appended noise blocks: "mode:z1+z2+..." (the harness augments once per block with the diagonal blocks of Qin)
+    mtok = meta["mode"] + (":" + "+".join(str(z) for z in nzs) if len(nzs) > 1 else "")
+    toks = ["ut", mtok, str(nx), str(nz), str(ny), str(k), hexd(meta["alpha"]), hexd(meta["beta"]), hexd(meta["kappa"]), vcode(meta)]
     toks += cm_tokens(meta["A"]) + [hexd(v) for v in meta["b"]]
     toks += [hexd(meta["means"][i][j]) for i in range(k) for j in range(nx)]
     toks += [hexd(meta["Ps"][i][a][b]) for i in range(k) for b in range(nx) for a in range(nx)]
@@ -791,10 +934,27 @@ def compare_ut(meta, o, mo, stats):
         P = blockdiag(meta["Ps"][i], meta["Qin"] if nz else [])
         pn = max(n * maxabs(P), 0.0)
         tsq = C_SQRT * n * EPS * pn
+        # accuracy of the factor seen through A, per input coordinate: relative to ||P|| in general; when the state block
+        # is exactly diagonal the coordinates decouple (see check_points_linear) and the scale of coordinate b is
+        # sqrt(P_bb) -- a tolerance relative to the largest variance would hide an error in a small one
+        sdev = [math.sqrt(pn)] * n
+        if nx >= 2 and all(P[a_][b_] == 0 for a_ in range(nx) for b_ in range(nx) if a_ != b_):
+            # (the noise block is diagonalised by rotations that stop at a threshold relative to the largest diagonal
+            # entry of the whole matrix: its accuracy is relative to ||P||, unless it is exactly diagonal as well)
+            zdiag = all(P[a_][b_] == 0 for a_ in range(nx, n) for b_ in range(nx, n) if a_ != b_)
+            sdev = [math.sqrt(float(P[b_][b_])) for b_ in range(nx)] + [(math.sqrt(float(P[b_][b_])) if zdiag else math.sqrt(pn)) for b_ in range(nx, n)]
+        fsc = [sum(abs(float(A[a_][b_])) * sdev[b_] for b_ in range(n)) for a_ in range(ny)]
         cmean = [o["mean"][r][i] for r in range(ny)]
         ccov = [[o["cov"][a][ny * i + c] for c in range(ny)] for a in range(ny)]
         ccross = [[o["cross"][a][ny * i + c] for c in range(ny)] for a in range(nx)]
         smean, scov, scross = cf[i]
+        if "far" in meta.get("scale", "") and ny * N1 <= 400:
+            swm_, swc_, _c = weights_frac(n, meta["alpha"], meta["beta"], meta["kappa"])
+            Yx = [[sum(A[a][l] * Xi[l][j] for l in range(n)) + b[a] for j in range(N1)] for a in range(ny)]
+            toks_ = ["utnv", str(ny), str(N1)] + [hexd(float(w_)) for w_ in swc_] + [hexd(float(Yx[a][j])) for j in range(N1) for a in range(ny)] + [hexd(float(v_)) for v_ in cmean]
+            stats.setdefault("_utnv", []).append((" ".join(toks_), [[float(x_) for x_ in row_] for row_ in ccov], [[float(x_) for x_ in row_] for row_ in scov],
+                                                  [[tol_cov[a][c] + C_SQRT * n * EPS * fsc[a] * fsc[c] for c in range(ny)] for a in range(ny)], meta["mode"], i,
+                                                  [[float(x_) for x_ in row_] for row_ in meta["Nadd"]] if meta["Nadd"] is not None else None))
         for r in range(ny):
             em = float(abs(cmean[r] - mo["mean"][i][r]))
             es = float(abs(cmean[r] - smean[r]))
@@ -811,7 +971,7 @@ def compare_ut(meta, o, mo, stats):
             for c in range(ny):
                 em = float(abs(ccov[a][c] - mo["cov"][i][a][c]))
                 es = float(abs(ccov[a][c] - scov[a][c]))
-                tp = tol_cov[a][c] + tsq * rowsum[a] * rowsum[c]
+                tp = tol_cov[a][c] + C_SQRT * n * EPS * fsc[a] * fsc[c]
                 stats["ut_cov_model"] = max(stats.get("ut_cov_model", 0.0), em / tol_cov[a][c])
                 stats["ut_cov_spec"] = max(stats.get("ut_cov_spec", 0.0), es / tp)
                 if es > tp and not bad:
@@ -826,7 +986,7 @@ def compare_ut(meta, o, mo, stats):
             for c in range(ny):
                 em = float(abs(ccross[a][c] - mo["cross"][i][a][c]))
                 es = float(abs(ccross[a][c] - scross[a][c]))
-                tp = tol_cross[a][c] + tsq * rowsum[c]
+                tp = tol_cross[a][c] + C_SQRT * n * EPS * sdev[a] * fsc[c]
                 stats["ut_cross_model"] = max(stats.get("ut_cross_model", 0.0), em / tol_cross[a][c])
                 stats["ut_cross_spec"] = max(stats.get("ut_cross_spec", 0.0), es / tp)
                 if es > tp and not bad:
@@ -912,6 +1072,12 @@ def transform_stage(ctx, binary, stats, hist, notes, only=None):
         hist["ut:A=" + meta["astyle"]] = hist.get("ut:A=" + meta["astyle"], 0) + 1
         hist["ut:P=" + meta["pstyle"]] = hist.get("ut:P=" + meta["pstyle"], 0) + 1
         hist["ut:scale=" + meta.get("scale", "?")] = hist.get("ut:scale=" + meta.get("scale", "?"), 0) + 1
+        hist["ut:noise-blocks=%d" % len(meta.get("nzs") or ([1] if meta["nz"] else []))] = hist.get("ut:noise-blocks=%d" % len(meta.get("nzs") or ([1] if meta["nz"] else [])), 0) + 1
+        if meta.get("large"):
+            hist["ut:long-input(2n+1>=25)"] = hist.get("ut:long-input(2n+1>=25)", 0) + 1
+        for tag in ("far-mean", "far-offset", "neardup-mean", "same-mean"):
+            if tag in meta.get("scale", ""):
+                hist["ut:style=" + tag] = hist.get("ut:style=" + tag, 0) + 1
         nf = nonfinite_count(h) if h.startswith("ok") else 0
         try:
             if nf:
@@ -947,6 +1113,26 @@ def transform_stage(ctx, binary, stats, hist, notes, only=None):
                     probs += compare_ut(meta, o, mo, stats)
         for kind, key2, what in probs:
             (prop_bad if kind == "prop" else corr_bad).append((key2, what, line, h))
+    # means / offsets far from the origin: the model's covariance of the offsets and the expanded formula
+    # (BFL.utCovNaive, equal over a field: ut_naive_eq_offsets), both executed on Float on the propagated points
+    nv = stats.pop("_utnv", [])
+    nvo = vlib.run_driver([x[0] for x in nv])
+    for (l_, ccov_, scov_, tol_, mode_, i_, nadd_), o_ in zip(nv, nvo):
+        hist["far:float-model-cases"] = hist.get("far:float-model-cases", 0) + 1
+        if not o_.startswith("ok"):
+            corr_bad.append(("far-model-undefined", "utnv: %s" % o_[:40], l_, ""))
+            continue
+        ny_ = len(ccov_)
+        v_ = [unhex(x_) for x_ in o_.split()[1:]]
+        off_ = [[v_[c * ny_ + a] + (nadd_[a][c] if nadd_ else 0.0) for c in range(ny_)] for a in range(ny_)]
+        nai_ = [[v_[ny_ * ny_ + c * ny_ + a] + (nadd_[a][c] if nadd_ else 0.0) for c in range(ny_)] for a in range(ny_)]
+        e1 = max(abs(off_[a][c] - ccov_[a][c]) / tol_[a][c] for a in range(ny_) for c in range(ny_))
+        e2 = max(abs(nai_[a][c] - scov_[a][c]) / tol_[a][c] for a in range(ny_) for c in range(ny_))
+        stats["far_cov_float_model"] = max(stats.get("far_cov_float_model", 0.0), e1)
+        if e1 > 1.0:
+            corr_bad.append(("far-cov-vs-float-model", "%s overload, component %d: covariance differs from the Float execution of the model (offsets form) by %.3g tolerances" % (mode_, i_, e1), l_, ""))
+        key_ = "far:expanded-formula-on-Float " + ("outside the tolerance (the case tells the two forms apart)" if e2 > 1.0 else "within the tolerance")
+        hist[key_] = hist.get(key_, 0) + 1
     return cases, lines, prop_bad, corr_bad, len(logs)
 
 
@@ -1552,6 +1738,24 @@ def run(ctx):
         gp, gt, gc = ctx.gen("points"), ctx.gen("transform"), ctx.gen("circular")
         pre["points"] = [sp_case(gp, ctx.tier) for _ in range(ctx.n(70, 2500))]
         pre["transform"] = [ut_case(gt, ctx.tier, i) for i in range(ctx.n(150, 5000))]
+        # enumerated every run: long inputs; >= 5 components with several appended noise blocks; consecutive calls
+        # whose offsets matrices have the same number of entries in different shapes (ny x (2n+1): 3x5 / 5x3, ...)
+        adjacent = []
+        for i_ in range(ctx.n(3, 12)):
+            # 2n+1 = 33 and 65 sigma points in every run, a third length at random
+            pre["transform"].append(ut_case(gt, ctx.tier, -1, {"big": [16, 32][i_] if i_ < 2 else True, "mode": gt.r.choice(["gen", "sm", "asm", "mm", "amm"])}))
+        for i_ in range(ctx.n(3, 20)):
+            pre["transform"].append(ut_case(gt, ctx.tier, -1, {"k": gt.r.choice([5, 6, 7]), "nzs": gt.r.choice([[1, 1], [2, 1], [1, 2, 1], [1, 1, 1, 1]]),
+                                                              "mode": gt.r.choice(["gen", "sm", "mm"]), "nx": gt.r.randint(1, 3), "ny": gt.r.randint(1, 3)}))
+        SAME_SIZE = [((3, 2), (5, 1)), ((5, 3), (7, 2)), ((7, 1), (3, 3)), ((9, 2), (5, 4)), ((5, 4), (3, 7)), ((9, 1), (3, 4))]
+        for pair in SAME_SIZE:
+            pair = list(pair)
+            gt.r.shuffle(pair)
+            kk = gt.r.choice([1, 2])
+            md = gt.r.choice(["gen", "mm", "amm"])
+            grp = [ut_case(gt, ctx.tier, -1, {"mode": md, "ny": ny_, "nx": n_, "nzs": [], "k": kk}) for (ny_, n_) in pair]
+            pre["transform"] += grp
+            adjacent.append([c_[0] for c_ in grp])
         pre["circular"] = [circ_case(gc, ctx.tier) for _ in range(ctx.n(90, 3000))]
         # regression corpus (boundary cases and minimised past failures), run with every tier and seed
         import json
@@ -1565,8 +1769,11 @@ def run(ctx):
                 pre[cr["stage"]].insert(0, (line_, m_))
                 ncorpus += 1
         hist["corpus-cases"] = ncorpus
-        allc = [l for st_ in ("points", "transform", "circular") for (l, _m) in pre[st_]]
-        ctx.gen("interleave").r.shuffle(allc)
+        inadj = set(l for grp in adjacent for l in grp)
+        groups = [[l] for st_ in ("points", "transform", "circular") for (l, _m) in pre[st_] if l not in inadj] + adjacent
+        ctx.gen("interleave").r.shuffle(groups)
+        allc = [l for grp in groups for l in grp]
+        hist["adjacent-calls:same-element-count-different-shape"] = len(adjacent)
         outs, ilogs = vlib.run_harness(binary, allc)
         HCACHE.update(zip(allc, outs))
         inter_crash = len(ilogs)
@@ -1586,6 +1793,12 @@ def run(ctx):
         d.update(extra or {})
         return d
 
+    by_class = {}
+    for key2, what, line, h in prop_bad:
+        m_ = (REG.get(line, (None, None))[1]) or {}
+        tag = "%s | %s %s" % (key2, m_.get("scale", m_.get("style", "?")), m_.get("pstyle", ""))
+        by_class[tag] = by_class.get(tag, 0) + 1
+    ctx.coverage["failing_cases_by_generator_class"] = by_class
     seen = set()
     for key2, what, line, h in prop_bad:
         if key2 in seen:
